@@ -195,6 +195,11 @@ pub fn load(text: &str, code_base: u64) -> Result<Prog, LoadErr> {
             }
             continue;
         }
+        // a line with unbalanced brackets is not acceptable to any assembler (e.g. a symbol that was
+        // broken across two lines)
+        if t.matches('[').count() != t.matches(']').count() || t.matches('(').count() != t.matches(')').count() {
+            return Err(LoadErr::Text(Viol::new(Class::Text, format!("line {line}: `{t}` has unbalanced brackets"))));
+        }
         let (mn, rest) = match t.split_once(char::is_whitespace) {
             Some((m, r)) => (m, r.trim()),
             None => (t, ""),
@@ -459,6 +464,9 @@ pub fn load(text: &str, code_base: u64) -> Result<Prog, LoadErr> {
                 }
                 fixups.push((ins.len(), ops[2].clone(), line));
                 Ins::Tbz(mn == "TBZ", gpr(0)?, bit, usize::MAX)
+            }
+            m if !m.chars().all(|c| c.is_ascii_alphanumeric() || c == '.' || c == '_') => {
+                return Err(LoadErr::Text(Viol::new(Class::Text, format!("line {line}: `{t}` is neither an instruction nor a label nor a directive"))));
             }
             _ => return Err(bad("unknown mnemonic")),
         };
